@@ -736,3 +736,19 @@ Example C04_example_rewant :
 Proof.
   split; [vm_compute; left; reflexivity|]. split; repeat constructor; discriminate.
 Qed.
+
+(* An observation about the repaired code (reported as a possible liveness defect, C02/C04): `wanted_again`
+   forgets only `GotBlock`.  If a DONT_HAVE for c from the same peer is processed after its block (the two
+   travel on different streams) and before any wantlist is generated for that peer, the entry is
+   `GotDontHave` when c is wanted again, and c is then never requested from this peer — neither by updates
+   nor by the periodic full wantlist — although the peer has the block and (after serving it) has
+   forgotten the want.  The ghost folds agree with the code here (c is in `dont_have`), so the C04
+   statements are not violated; the history is the witness. *)
+Example wanted_again_after_dont_have_witness :
+  let h := [HInsert ex_c1; HGenUpdate; HBlock ex_c1; HDontHave ex_c1; HInsert ex_c1] in
+  wl_cids (fst (st_of true h)) = [ex_c1] /\
+  req (snd (st_of true h)) = [(ex_c1, GotDontHave)] /\
+  fst (wls_generate_update (snd (st_of true h)) (fst (st_of true h))) = [] /\
+  fst (wls_generate_full (snd (st_of true h)) (fst (st_of true h))) = [] /\
+  g_dont_have (lit_ghost true h) = [ex_c1].
+Proof. vm_compute. repeat split; reflexivity. Qed.
